@@ -8,10 +8,22 @@ use crate::engine::*;
 use crate::gen::FCfg;
 use crate::model::Net;
 use crate::sem::*;
-use proptest::strategy::BoxedStrategy;
+use crate::gen::RawF;
+use crate::scale::*;
+use proptest::prelude::*;
 use serde_json::Value;
+use std::time::Duration;
 
 pub struct C01;
+
+/// A small case (decided by the explicit-state evaluator) or a mid-size one (7-14 variables, tens of
+/// parameter bits; decided by the reference symbolic evaluator).
+#[derive(Clone, Debug)]
+pub enum RawC01 {
+    Small(RawSem),
+    /// network, formula, spare variable sets, milliseconds granted to the reference evaluator
+    Mid(RawMid, RawF, u8, u64),
+}
 
 fn check(case: &SemCase, net: &Net, f: &F) -> Verdict {
     if f.has_wild_or_domain() || f.has_weak_until() || !f.is_closed() {
@@ -38,12 +50,12 @@ fn check(case: &SemCase, net: &Net, f: &F) -> Verdict {
 }
 
 impl Property for C01 {
-    type Raw = RawSem;
+    type Raw = RawC01;
     fn id(&self) -> &'static str {
         "C01"
     }
     fn rule(&self) -> String {
-        "random network (1-4 variables; implicit / explicit / uninterpreted update functions; constrained and unconstrained regulations; <= 4096 colours) x closed plain formula (no EW/AW, no wild-cards; <= 3 nested state variables), compared point-wise (every state x up to 64 valid colours, three settings of the extra variables) with the explicit-state evaluator through 8 entry points. Non-trivial: the formula has a temporal or hybrid operator and the expected result is neither empty nor the whole valid universe; distinct = hash of (network text, k, formula text).".into()
+        "(a) random network (1-4 variables; implicit / explicit / uninterpreted update functions; constrained and unconstrained regulations; <= 4096 colours) x closed plain formula (no EW/AW, no wild-cards; <= 3 nested state variables), compared point-wise (every state x up to 64 valid colours, three settings of the extra variables) with the explicit-state evaluator through 8 entry points. Non-trivial: the formula has a temporal or hybrid operator and the expected result is neither empty nor the whole valid universe; distinct = hash of (network text, k, formula text). (b) ~2 % of the random cases: generated mid-size network (7-14 variables, every variable with 1-3 regulators and an implicit / explicit / shared-symbol update function, up to ~100 parameter bits) x closed plain formula with <= 2 nested state variables; (c) deterministic stage: 21 (quick) / 30 (thorough) bundled benchmark models (9-252 variables, up to 108 parameter bits) x 10 / 60 formulae each (saturation-friendly operators; one state variable on the 6 smallest). (b) and (c) are decided by the reference symbolic evaluator (refsym.rs: own one-step relation from the update-function BDDs, EX and AX written out, sinks as self-loops, plain fixed-point iterations, one spare variable set per binder depth), whole-set BDD equality through model_check_formula_dirty, model_check_tree_dirty and model_check_formula; that evaluator is calibrated against the explicit-state one on 1500 / 20000 small cases at the start of every run (disagreement = harness error).".into()
     }
     fn assumptions(&self) -> Vec<String> {
         vec![
@@ -55,16 +67,42 @@ impl Property for C01 {
     fn cases(&self, tier: Tier) -> u32 {
         tier.pick(40_000, 1_500_000)
     }
-    fn strategy(&self, tier: Tier) -> BoxedStrategy<RawSem> {
-        raw_sem(tier.pick(3, 4), 1..=1, 5, tier.pick(16, 24))
+    fn strategy(&self, tier: Tier) -> BoxedStrategy<RawC01> {
+        prop_oneof![
+            99 => raw_sem(tier.pick(3, 4), 1..=1, 5, tier.pick(16, 24)).prop_map(RawC01::Small),
+            1 => (raw_mid(), crate::gen::raw_f_weighted(4, 12, 1), any::<u8>(), Just(tier.pick(600u64, 2500u64))).prop_map(|(n, f, k, ms)| RawC01::Mid(n, f, k, ms)),
+        ]
+        .boxed()
     }
-    fn check_raw(&self, raw: &RawSem) -> Verdict {
-        match resolve_sem(raw, FCfg::PLAIN) {
-            Err(r) => Verdict::Discard(r),
-            Ok((case, fs, net)) => check(&case, &net, &fs[0]),
+    fn check_raw(&self, raw: &RawC01) -> Verdict {
+        match raw {
+            RawC01::Small(raw) => match resolve_sem(raw, FCfg::PLAIN) {
+                Err(r) => Verdict::Discard(r),
+                Ok((case, fs, net)) => check(&case, &net, &fs[0]),
+            },
+            RawC01::Mid(net, f, k, ms) => match mid_case(net, f, *k) {
+                Err(r) => Verdict::Discard(r),
+                // the reference evaluator gets 0.6 s (quick) / 2.5 s (thorough) per case; beyond: skipped and counted
+                Ok(case) => check_scale("C01", &case, Duration::from_millis(*ms)),
+            },
         }
     }
     fn replay(&self, case: &Value) -> Verdict {
+        if case.get("scale").is_some() {
+            return match serde_json::from_value::<ScaleCase>(case.clone()) {
+                Ok(c) => check_scale("C01", &c, Duration::from_secs(600)),
+                Err(_) => Verdict::Discard("unreadable-case"),
+            };
+        }
         replay_with(case, |case, net, fs| check(case, net, &fs[0]))
+    }
+    fn extra_stages(&self, tier: Tier, seed: u64, stats: &mut Stats) -> Option<Failure> {
+        // the reference symbolic evaluator is checked against the explicit-state one first
+        calibrate(seed, tier.pick(1500, 20_000), FCfg::PLAIN, stats);
+        let mut models: Vec<&str> = SCALE_MODELS_QUICK.to_vec();
+        if tier == Tier::Thorough {
+            models.extend(SCALE_MODELS_MORE);
+        }
+        bundled_scale_stage("C01", &models, tier.pick(10, 60), seed, Duration::from_secs(tier.pick(5, 30)), stats)
     }
 }
